@@ -105,22 +105,50 @@ def r16_2(ctx):
     from .c11 import r11_3  # block order per layout is decided there (abstract run of fbody per CodeFormat member)
     members = set(idx.enum_table("CodeFormat"))
     ctx.check("layouts", members == {"EXEC_CLASSES", "READ_STATEMENTS"}, "{EXEC_CLASSES, READ_STATEMENTS}", str(sorted(members)), fn_where(idx, fb))
-    def loop_src(q):
+    # which operand list each block walks, and what an iteration may skip: only an EMPTY initialiser (the guard is the initialiser
+    # call itself, read with local names substituted) and, in the EXEC block, hybrids (the WRITE block prints those)
+    def block_shape(q):
         fi = idx.func(f"RZILTransformer.{q}")
-        loops = [n for n in ast.walk(fi.node) if isinstance(n, ast.For)]
-        return fi, loops
-    fi, loops = loop_src("emit_read_block")
-    ctx.check("READ block iterates over all read operands", len(loops) == 1 and U(loops[0].iter) == "holder.read_ops.values()", "for op in holder.read_ops.values()", str([U(l.iter) for l in loops]), fn_where(idx, fi))
-    fi, loops = loop_src("emit_exec_block")
-    skips = [U(n.test) for n in ast.walk(fi.node) if isinstance(n, ast.If)]
-    ctx.check("EXEC block: all exec operands except hybrids", len(loops) == 1 and U(loops[0].iter) == "holder.exec_ops.values()" and sorted(skips) == ["isinstance(op, Hybrid)", "not exec_op"], "exec_ops, skipping hybrids and empty initialisers", f"{[U(l.iter) for l in loops]} skips={skips}", fn_where(idx, fi))
-    fi, loops = loop_src("emit_write_block")
-    skips = [U(n.test) for n in ast.walk(fi.node) if isinstance(n, ast.If)]
-    ctx.check("WRITE block: all write operands including hybrids", len(loops) == 1 and U(loops[0].iter) == "holder.write_ops.values()" and sorted(skips) == ["isinstance(op, Hybrid)", "not hybrid_init", "not write_op"], "write_ops; only empty initialisers skipped", f"{[U(l.iter) for l in loops]} skips={skips}", fn_where(idx, fi))
-    fi, loops = loop_src("emit_stmt_blocks")
-    its = [U(l.iter) for l in loops]
-    skips = sorted(U(n.test) for n in ast.walk(fi.node) if isinstance(n, ast.If))
-    ctx.check("statement layout: every written effect, dependencies first", its[:1] == ["holder.write_ops.values()"] and skips == ["not effect_init", "not op_init"], "write_ops; dependencies from get_exec_op_list(); only empty initialisers skipped", f"{its} skips={skips}", fn_where(idx, fi))
+        loops = []
+
+        def collect(evs):
+            for e in evs:
+                if e.kind == "loop":
+                    loops.append(e)
+                    for bp in e.extra:
+                        collect(bp.events)
+        for p_ in paths_of(fi.node):
+            collect(p_.events)
+        seen = {}
+        for lp in loops:
+            it = U(lp.node[2]) if isinstance(lp.node, tuple) and len(lp.node) > 2 else "?"
+            for bp in lp.extra:
+                inits = [U(e.node) for e in bp.events if e.kind == "call" and isinstance(e.node, ast.Call) and call_tail(e.node).startswith("il_init")]
+                res = bp.env.get("res")
+                appended = [c for c in inits if res is not None and c in U(res)]
+                why = "printed" if appended else None
+                if why is None:
+                    if any((not pol) and U(g) in inits for g, pol in bp.guards):
+                        why = "empty initialiser"
+                    elif any(pol and U(g).startswith("isinstance(") and "Hybrid" in U(g) for g, pol in bp.guards) and not inits:
+                        why = "hybrid skipped"
+                    elif not inits and any(e.kind == "call" and isinstance(e.node, ast.Call) and call_tail(e.node) == "append" for e in bp.events) and not bp.guards:
+                        why = "collects"  # builds the statement lists the printing loop walks, for every element
+                    else:
+                        why = f"skipped when {bp.guard_text()[:60]}"
+                seen.setdefault(it, set()).add(why)
+        return fi, seen
+    for q, lst, allowed in (("emit_read_block", "holder.read_ops.values()", {"printed", "empty initialiser"}),
+                            ("emit_exec_block", "holder.exec_ops.values()", {"printed", "empty initialiser", "hybrid skipped"}),
+                            ("emit_write_block", "holder.write_ops.values()", {"printed", "empty initialiser"})):
+        fi, seen = block_shape(q)
+        got = seen.get(lst)
+        ctx.check(f"{q}: walks {lst.split('.')[1]}, prints every initialiser that is not empty" + (" (hybrids are left to the WRITE block)" if "exec" in q else ""),
+                  list(seen) == [lst] and got is not None and "printed" in got and got <= allowed and ("exec" not in q or "hybrid skipped" in got), f"{lst}: {sorted(allowed)}", str({k: sorted(v) for k, v in seen.items()}), fn_where(idx, fi))
+    fi, seen = block_shape("emit_stmt_blocks")
+    flat = set().union(*seen.values()) if seen else set()
+    ctx.check("statement layout: every written effect, dependencies first", any(k.startswith("holder.write_ops.values()") for k in seen) and "printed" in flat and flat <= {"printed", "empty initialiser", "collects"},
+              "write_ops; dependencies from get_exec_op_list(); only empty initialisers skipped", str({k: sorted(v) for k, v in seen.items()}), fn_where(idx, fi))
     # hybrids are in both exec_ops and write_ops (so each layout sees them exactly once)
     fa = idx.func("ILOpsHolder.add_hybrid")
     stores = sorted(U(n.targets[0]) for n in ast.walk(fa.node) if isinstance(n, ast.Assign))
